@@ -210,6 +210,12 @@ func (d *Drv) bind(e EID, h ecs.Entity) {
 	}
 	d.H[e] = h
 	d.ByH[h] = e
+	if d.Name == "A" || d.Name == "W" {
+		for len(d.M.HID) <= int(e) {
+			d.M.HID = append(d.M.HID, 0)
+		}
+		d.M.HID[e] = h.ID()
+	}
 	if h.Gen() > 0 {
 		d.Stat.Recycled++
 	}
